@@ -52,8 +52,16 @@ func c04(r *core.Run) {
 		r.SetAdd("hook_orders_fault_free", fmt.Sprintf("%s:%016x", sc.Name, hookSignature(pilot.Hooks)))
 		var plans []*fault
 		// byte cuts of the server stream
+		// first bytes of the server's packets in the pilot trace (reader-side gate events carry the
+		// number of bytes delivered so far)
+		bounds := map[int64]bool{0: true}
+		for _, e := range pilot.Sim.Conn.Events() {
+			if e.Op == "gate" && strings.HasPrefix(e.Gate, "srv:before:") {
+				bounds[int64(e.N)-pilot.HandshakeR] = true
+			}
+		}
 		for _, k := range byteOffsets(r, srvBytes, seed) {
-			plans = append(plans, &fault{Kind: "cut", K: k}, &fault{Kind: "cut", K: k, Reset: true})
+			plans = append(plans, &fault{Kind: "cut", K: k, MidPacket: !bounds[k]}, &fault{Kind: "cut", K: k, Reset: true, MidPacket: !bounds[k]})
 		}
 		for i, k := range byteOffsets(r, srvBytes, seed+2) {
 			if r.Quick() && i >= 70 {
@@ -327,6 +335,10 @@ func c04One(r *core.Run, sc scn, seed int64, f *fault) {
 		r.SetAdd("outcomes", "open-after-error")
 	}
 	// open: both directions must be at a packet boundary
+	if cls := errClassC04(o.Err); f.Kind == "cut" && f.MidPacket && o.Err != nil && (cls == "eof" || cls == "reset") {
+		fail("open-client-mid-packet-read:cut", fmt.Sprintf("client left open after error %q although the server stream ended inside a packet (after byte %d of the response): the read side is not at a packet boundary", firstLineOf(fmtErr(o.Err)), f.K))
+		return
+	}
 	if o.SrvErrAtReturn != nil {
 		fail("open-client-malformed-stream", fmt.Sprintf("client left open after %v, but its byte stream is malformed: %v", firstLineOf(fmtErr(o.Err)), o.SrvErrAtReturn))
 		return
